@@ -50,6 +50,8 @@ CONSTANTS Ops,          \* operator names explored
           DspTicks,     \* the subscriber disposes half a tick after one of these ticks ({} = never)
           Takes,        \* the result is cut by take(k), k in Takes (k >= 1; {} = no take): termination from downstream
                         \* in the middle of a notification
+          Fbs,          \* feedback: when the subscriber receives its k-th element (k in Fbs; {} = none) it makes the outer
+                        \* source deliver one more inner at once, re-entrantly, from inside that notification
           Faults,       \* TRUE: mappers may raise
           FAll,         \* TRUE: every mapper table; FALSE: the identity table (and, if Faults, with one raising entry)
           RG,           \* TRUE: outer tokens form a restricted-growth string (symmetry cut for "gen" tables)
@@ -107,9 +109,9 @@ InnerTables(P) == UNION {IF nm = "gen" THEN [1..GenN -> GenIdx] ELSE {[j \in 1..
 (* ---- parameter slices ---------------------------------------------------------------------- *)
 CfgSlice == [Ops |-> Ops, MCs |-> MCs, Tabs |-> Tabs, Flavours |-> Flavours, MaxOuter |-> MaxOuter, OTimes |-> OTimes,
              OTermTimes |-> OTermTimes, OTerms |-> OTerms, DspTicks |-> DspTicks, Takes |-> Takes, Faults |-> Faults,
-             FAll |-> FAll, RG |-> RG]
+             FAll |-> FAll, RG |-> RG, Fbs |-> Fbs]
 QB == [Ops |-> {}, MCs |-> {1}, Tabs |-> {"plain"}, Flavours |-> {"cold"}, MaxOuter |-> 3, OTimes |-> {1, 2, 3},
-       OTermTimes |-> {2, 5}, OTerms |-> {"C", "E", "U"}, DspTicks |-> {}, Takes |-> {}, Faults |-> FALSE, FAll |-> FALSE, RG |-> TRUE]
+       OTermTimes |-> {2, 5}, OTerms |-> {"C", "E", "U"}, DspTicks |-> {}, Takes |-> {}, Faults |-> FALSE, FAll |-> FALSE, RG |-> TRUE, Fbs |-> {}]
 SliceOf(nm) ==
   CASE nm = "cfg" -> CfgSlice
     \* ---- C11 quick ----
@@ -122,7 +124,10 @@ SliceOf(nm) ==
     [] nm = "q11_srcs"  -> [QB EXCEPT !.Ops = {"merge_srcs"}, !.Tabs = {"short", "error"}, !.Flavours = {"cold", "sync"}, !.RG = FALSE]
     \* dispose instants (also: a first subscriber disposed while inners are queued, then a second one), outer events at instant 0
     [] nm = "q11_dispose" -> [QB EXCEPT !.Ops = {"merge_all", "merge_mc", "concat_map"}, !.Flavours = {"sync"}, !.MaxOuter = 2,
-                                        !.OTimes = {0, 1, 2}, !.DspTicks = {0, 1, 2}]
+                                        !.OTimes = {0, 1, 2}, !.OTermTimes = {0, 2, 5}, !.DspTicks = {0, 1, 2}]
+    \* the subscriber feeds an inner back into the outer from inside a notification (re-entrant arrival)
+    [] nm = "q11_fb"    -> [QB EXCEPT !.Ops = {"merge_all", "merge_mc"}, !.Tabs = {"short"}, !.Flavours = {"sync"}, !.MaxOuter = 2,
+                                      !.OTermTimes = {1, 2, 3}, !.Fbs = {1}]
     [] nm = "q11_take"  -> [QB EXCEPT !.Ops = {"merge_mc", "concat_map"}, !.Tabs = {"short"}, !.Flavours = {"sync"}, !.RG = FALSE,
                                       !.OTimes = {0, 1}, !.OTermTimes = {2}, !.OTerms = {"C", "U"}, !.Takes = {2}]
     \* ---- C12 quick ----
@@ -132,7 +137,9 @@ SliceOf(nm) ==
                                        !.MaxOuter = 2, !.Faults = TRUE, !.OTermTimes = {2, 3, 5}]
     [] nm = "q12_hot"   -> [QB EXCEPT !.Ops = {"switch_latest"}, !.Tabs = {"pair", "never"}, !.Flavours = {"hot"}, !.MaxOuter = 2]
     [] nm = "q12_dispose" -> [QB EXCEPT !.Ops = {"switch_latest", "switch_map"}, !.Flavours = {"sync", "cold"}, !.MaxOuter = 2,
-                                        !.OTimes = {0, 1, 2}, !.DspTicks = {0, 1, 2, 3}]
+                                        !.OTimes = {0, 1, 2}, !.OTermTimes = {0, 2, 5}, !.DspTicks = {0, 1, 2, 3}]
+    [] nm = "q12_fb"    -> [QB EXCEPT !.Ops = {"switch_latest", "switch_map"}, !.Tabs = {"short"}, !.Flavours = {"sync"}, !.MaxOuter = 2,
+                                      !.OTermTimes = {1, 2, 3}, !.Fbs = {1, 2}]
     [] nm = "q12_excl"  -> [QB EXCEPT !.Ops = {"exclusive"}, !.Tabs = {"plain", "error"}, !.Flavours = {"cold", "sync"}, !.MaxOuter = 2, !.OTermTimes = {2, 3, 5}]
     [] nm = "q12_take"  -> [QB EXCEPT !.Ops = {"switch_latest", "exclusive"}, !.Tabs = {"short"}, !.Flavours = {"sync"}, !.RG = FALSE,
                                       !.MaxOuter = 2, !.OTimes = {0, 1}, !.OTermTimes = {2}, !.OTerms = {"C", "U"}, !.Takes = {1, 2}]
@@ -195,18 +202,20 @@ S0 == [act |-> <<>>,      \* active inner subscriptions, in subscription order: 
        todo |-> <<>>,     \* pending calls of the lane event being delivered
        amb |-> FALSE,     \* some instant had two lanes due (the scenario has more than one allowed outcome order)
        peak |-> 0]        \* largest number of inner subscriptions that were open at the same moment (sub-instant order counts:
-                          \* an inner counts from subscribe() until its terminal notification or its unsubscription)
+                          \* an inner counts from subscribe() until it is unsubscribed, or - if it ends inside its own subscribe() - until that terminal)
 
 EagerInit == \E nm \in Slices : LET P == SliceOf(nm) IN
              \E o \in P.Ops, tb \in InnerTables(P), f \in P.Flavours :
-               \E m \in McsOf(P, o), ou \in OutersOf(P, o, Len(tb)), fm \in FMapsOf(P, o, Len(tb)), d \in Dsps(P), tk \in TakeKs(P) :
-                 /\ scn = [op |-> o, mc |-> m, tab |-> tb, fl |-> f, outer |-> ou, fmap |-> fm, dsp |-> d, take |-> tk]
+               \E m \in McsOf(P, o), ou \in OutersOf(P, o, Len(tb)), fm \in FMapsOf(P, o, Len(tb)), d \in Dsps(P), tk \in TakeKs(P),
+                  fb \in P.Fbs \cup {0} : \E fv \in (IF fb = 0 THEN {0} ELSE 1..Len(tb)) :
+                 /\ scn = [op |-> o, mc |-> m, tab |-> tb, fl |-> f, outer |-> ou, fmap |-> fm, dsp |-> d, take |-> tk,
+                           fb |-> fb, fbv |-> fv]
                  /\ phase = "run" /\ now = 0 /\ opos = 1 /\ hpos = [i \in 1..Len(tb) |-> 1] /\ S = S0
 
 \* Lazy: operator, flavour, max_concurrent and dispose instant in Init; then GenN inner timelines one by one, the mapper
 \* table, and the outer timeline event by event.  Every scenario of the eager enumeration over "gen" tables can be built.
 LazyInit == \E o \in Ops, f \in Flavours : \E m \in McsOf(CfgSlice, o), d \in Dsps(CfgSlice), tk \in TakeKs(CfgSlice) :
-               /\ scn = [op |-> o, mc |-> m, tab |-> <<>>, fl |-> f, outer |-> <<>>, fmap |-> <<>>, dsp |-> d, take |-> tk]
+               /\ scn = [op |-> o, mc |-> m, tab |-> <<>>, fl |-> f, outer |-> <<>>, fmap |-> <<>>, dsp |-> d, take |-> tk, fb |-> 0, fbv |-> 0]
                /\ phase = "tab" /\ now = 0 /\ opos = 1 /\ hpos = <<>> /\ S = S0
 Init == IF Lazy THEN LazyInit ELSE EagerInit
 
@@ -249,7 +258,10 @@ Term(s, t, k, i, e) == Finish(Emit(s, Rec(t, k, 0, i, 0, e)), t)
 \* the operator in the middle of this notification: everything is released now and nothing is subscribed any more
 NCount(s) == Cardinality({p \in 1..Len(s.out) : s.out[p].k = "N"})
 EmitN(s, t, r) == LET s1 == Emit(s, r) IN
-                  IF scn.take # 0 /\ NCount(s1) = scn.take THEN Term(s1, t, "C", 0, "take") ELSE s1
+                  IF scn.take # 0 /\ NCount(s1) = scn.take THEN Term(s1, t, "C", 0, "take")
+                  \* feedback: the subscriber's reaction (one more arrival on the outer) is the next call on the stack
+                  ELSE IF scn.fb # 0 /\ NCount(s1) = scn.fb THEN [s1 EXCEPT !.todo = << [k |-> "F", a |-> 0, b |-> 0] >> \o @]
+                  ELSE s1
 
 NSync(idx) == IF scn.fl = "sync" THEN Cardinality({j \in 1..Len(Inner(idx)) : Inner(idx)[j].t = 0}) ELSE 0
 \* subscribe to inner idx: a new lane; its synchronous events are delivered before anything else that is pending
@@ -342,7 +354,8 @@ FireDispose(md) == /\ DspDue # INF /\ DspDue = md
 
 Step == /\ S.todo # <<>>
         /\ LET m == Head(S.todo)  s == [S EXCEPT !.todo = Tail(@)] IN
-           S' = InnerEv(s, now, m.a, m.b)
+           \* "F": the fed-back inner arrives through the outer subscription (nothing happens if the outer is over)
+           S' = IF m.k = "F" THEN (IF s.odone THEN s ELSE OuterNext(s, now, scn.fbv)) ELSE InnerEv(s, now, m.a, m.b)
         /\ UNCHANGED <<scn, now, opos, hpos>>
 
 Run == \/ Step
@@ -422,7 +435,7 @@ CanComplete(Q) == /\ OTerm.k = "C" /\ FirstRaise > NArr
 CompleteAt(Q) == IF IsMerge THEN SetMax({OTerm.t} \cup {Q[k].en : k \in 1..NArr})
                  ELSE IF NArr = 0 THEN OTerm.t ELSE Max2(OTerm.t, Arr[NArr].t + CRel(Tgt(NArr)))
 
-RefScope == scn.fl # "hot" /\ (IsMerge \/ IsSwitch)
+RefScope == scn.fl # "hot" /\ (IsMerge \/ IsSwitch) /\ scn.fb = 0      \* a fed-back arrival has no instant of its own in the scenario
 NRecs == {p \in 1..Len(S.out) : S.out[p].k = "N"}
 RefOutBody(Q) ==
     \* exactly the elements of the subscribed inners, at their original instants ...
@@ -484,7 +497,7 @@ FinalInv == (RefScope => LET Q == Sched(NEff) IN RefOutBody(Q) /\ RefSubsBody(Q)
 
 (* ---- export ---------------------------------------------------------------------------------- *)
 ExportLine == PrintT(ToJson([scn |-> [op |-> scn.op, mc |-> scn.mc, fl |-> scn.fl, outer |-> scn.outer, fmap |-> scn.fmap,
-                                            dsp |-> scn.dsp, take |-> scn.take, tab |-> [i \in 1..NI |-> Inner(i)]],
+                                            dsp |-> scn.dsp, take |-> scn.take, fb |-> scn.fb, fbv |-> scn.fbv, tab |-> [i \in 1..NI |-> Inner(i)]],
                                   obs |-> [out |-> S.out, subs |-> S.subs, osub |-> S.osub, amb |-> S.amb, peak |-> S.peak]]))
 Export == Final => ExportLine
 AllInv == StateInv /\ (Final => (FinalInv /\ ExportLine))
